@@ -10,7 +10,7 @@ use rspack_sources::{
 };
 use serde_json::Value;
 
-use crate::custom::{DefaultSource, ScriptEv, ScriptSource};
+use crate::custom::{DefaultSource, ScriptEv, ScriptSource, YieldSource};
 
 #[derive(Clone)]
 pub enum Val {
@@ -25,6 +25,7 @@ pub enum Val {
   Boxed(BoxSource),
   Default(DefaultSource),
   Script(ScriptSource),
+  Yield(YieldSource),
 }
 
 impl Val {
@@ -41,6 +42,7 @@ impl Val {
       Val::Boxed(s) => s,
       Val::Default(s) => s,
       Val::Script(s) => s,
+      Val::Yield(s) => s,
     }
   }
 
@@ -58,6 +60,7 @@ impl Val {
       Val::Boxed(s) => s,
       Val::Default(s) => s.boxed(),
       Val::Script(s) => s.boxed(),
+      Val::Yield(s) => s.boxed(),
     }
   }
 }
@@ -204,6 +207,9 @@ pub fn build(t: &Value, regs: &[Option<Val>]) -> Val {
         t["end"][1].as_u64().unwrap() as u32,
       ),
     }),
+    "yield" => Val::Yield(YieldSource {
+      text: string_of(&t["b"]),
+    }),
     "concat" => {
       let children: Vec<Val> = t["ch"]
         .as_array()
@@ -264,5 +270,6 @@ pub fn add_child(concat: &mut ConcatSource, child: Val) {
     Val::Boxed(s) => concat.add(s),
     Val::Default(s) => concat.add(s),
     Val::Script(s) => concat.add(s),
+    Val::Yield(s) => concat.add(s),
   }
 }
